@@ -647,11 +647,7 @@ Definition cinfo_of (e : env) (c : cls) : option cinfo := aget N.eqb c (e_classe
 Lemma class_info_ok e c ci : class_info e c = inl ci <-> cinfo_of e c = Some ci.
 Proof. unfold class_info, cinfo_of. destruct (aget N.eqb c (e_classes e)); split; intro H; congruence. Qed.
 
-(* an object's own data: its name and what each reference field refers to *)
-Definition name_of (ci : cinfo) (d : data) : option name :=
-  match aget N.eqb (c_name ci) d with Some (VName n) => Some n | _ => None end.
-Definition frefs (d : data) (f : fld) : list id :=
-  match aget N.eqb f d with Some (VRefs l) => l | _ => [] end.
+(* an object's own data (name_of, frefs: Model.v) *)
 Definition oname (ci : cinfo) (od : option data) : option name :=
   match od with Some d => name_of ci d | None => None end.
 Definition orefs (od : option data) (f : fld) : list id :=
@@ -1846,3 +1842,212 @@ Proof. intro H. split; [apply (rejected_noop _ _ _ _ H) | intro os; apply trace_
 Definition RefInt (e : env) (s : schema) : Prop :=
   forall r c ci d f t, gty s r = Some c -> cinfo_of e c = Some ci -> gdata s r = Some d ->
                        In f (c_refs ci) -> In t (frefs d f) -> gty s t <> None.
+
+(* ------------------------------------------------------------------ *)
+(* Layer 2 (model only): guarded commands keep references resolvable    *)
+
+Definition wf_cmd (s : schema) (c : cmd) : Prop :=
+  match c with
+  | CDrop l => forall hc i, In (hc, i) l -> gty s i = Some hc \/ gty s i = None
+  | _ => True
+  end.
+
+Lemma live_true s t : live s t = true <-> gty s t <> None.
+Proof. unfold live, gty. apply amem_true. Qed.
+
+Lemma refs_ok_spec s self l : refs_ok s self l = true ->
+  forall t, In t l -> t = self \/ gty s t <> None.
+Proof.
+  unfold refs_ok. rewrite forallb_forall. intros H t Hin. specialize (H t Hin).
+  apply orb_true_iff in H. destruct H as [H|H]; [left; apply N.eqb_eq; exact H | right; apply live_true; exact H].
+Qed.
+
+(* a change that leaves the object live keeps references resolvable, provided the new data's
+   references resolve *)
+Lemma refint_chg_live e s s' oid c ci od d1 :
+  Inv e s -> RefInt e s -> Chg e s s' oid c ci od (Some d1) ->
+  (forall f t, In f (c_refs ci) -> In t (frefs d1 f) -> t = oid \/ gty s t <> None) ->
+  RefInt e s'.
+Proof.
+  intros HI HR HC Hnew r c0 ci0 d0 f t G1 G2 G4 Hf Ht.
+  assert (Hlive : forall t0, t0 = oid \/ gty s t0 <> None -> gty s' t0 <> None).
+  { intros t0 [->|Hx].
+    - destruct (m_self HC) as [_ Hb]. rewrite Hb. discriminate.
+    - destruct (N.eq_dec t0 oid) as [->|Hne].
+      + destruct (m_self HC) as [_ Hb]. rewrite Hb. discriminate.
+      + destruct (m_other HC t0 Hne) as [_ Hb]. rewrite Hb. exact Hx. }
+  apply Hlive.
+  destruct (m_obj' HC r c0 d0 G1 G4) as [[-> [-> Hn]]|[Hi [G1' G4']]].
+  - inversion Hn; subst d0. pose proof (m_ci HC _ G2). subst ci0. apply (Hnew f t Hf Ht).
+  - right. apply (HR r c0 ci0 d0 f t G1' G2 G4' Hf Ht).
+Qed.
+
+Lemma frefs_dset_same_refs d f l : frefs (dset d f (Some (VRefs l))) f = l.
+Proof. unfold frefs, dset. rewrite Ng_set_same. reflexivity. Qed.
+
+Lemma frefs_dset_same_nonrefs d f v :
+  match v with Some (VRefs _) => False | _ => True end -> frefs (dset d f v) f = [].
+Proof.
+  unfold frefs, dset. destruct v as [[n|l|p]|]; intro H; try contradiction.
+  - rewrite Ng_set_same. reflexivity.
+  - rewrite Ng_set_same. reflexivity.
+  - rewrite Ng_del_same. reflexivity.
+Qed.
+
+(* alter of one field: the other reference fields keep resolving by RefInt of the old state *)
+Lemma refint_field e s s' i c ci d f v :
+  Inv e s -> RefInt e s -> Chg e s s' i c ci (Some d) (Some (dset d f v)) ->
+  (forall t, In t (frefs (dset d f v) f) -> t = i \/ gty s t <> None) ->
+  RefInt e s'.
+Proof.
+  intros HI HR HC Hf. apply (refint_chg_live e s s' i c ci (Some d) (dset d f v) HI HR HC).
+  intros f' t Hin Ht. destruct (N.eq_dec f' f) as [->|Hne].
+  - apply Hf. exact Ht.
+  - rewrite frefs_dset_other in Ht by exact Hne. right.
+    pose proof (g_od _ _ _ _ _ _ _ _ HC) as Hod. pose proof (g_ty _ _ _ _ _ _ _ _ HC) as Hty. simpl in Hty.
+    apply (HR i c ci d f' t Hty (g_ci _ _ _ _ _ _ _ _ HC) Hod Hin Ht).
+Qed.
+
+Lemma aget_In {K V} (eqb : K -> K -> bool) k (m : list (K * V)) v :
+  aget eqb k m = Some v -> exists k', In (k', v) m.
+Proof.
+  induction m as [|[k0 v0] m IH]; simpl; [discriminate|].
+  destruct (eqb k k0).
+  - intro H. inversion H; subst. exists k0. left. reflexivity.
+  - intro H. destruct (IH H) as [k' Hk]. exists k'. right. exact Hk.
+Qed.
+
+Lemma rin_referrers s t k r : rin (s_refs s) t k r -> In r (referrers s t).
+Proof.
+  intros [m [l [Hm [Hl Hr]]]]. unfold referrers. rewrite Hm.
+  destruct (aget_In _ _ _ _ Hl) as [k' Hk]. apply in_flat_map. exists (k', l). auto.
+Qed.
+
+Lemma delete_all_spec e : wf_env e -> forall l s s',
+  Inv e s -> (forall hc i, In (hc, i) l -> gty s i = Some hc \/ gty s i = None) ->
+  delete_all e s l = inl s' ->
+  Inv e s'
+  /\ (forall j, gty s' j = if smem j (map snd l) then None else gty s j)
+  /\ (forall j, ~ In j (map snd l) -> gdata s' j = gdata s j).
+Proof.
+  intros We l. induction l as [|[hc i] l IH]; intros s s' HI Hwf H; simpl in H.
+  - inversion H; subst. simpl. auto.
+  - destruct (delete e s hc i) as [s1|] eqn:E1; simpl in H; [|discriminate].
+    assert (Hty : gty s i = Some hc).
+    { destruct (Hwf hc i (or_introl eq_refl)) as [Hx|Hx]; [exact Hx|].
+      rewrite (delete_absent _ _ _ _ HI Hx) in E1. discriminate. }
+    destruct (delete_chg _ _ _ _ _ We HI Hty E1) as [ci [d HC]].
+    pose proof (master HI HC) as HI1.
+    assert (Hty1 : forall j, gty s1 j = if N.eqb j i then None else gty s j)
+      by (intro j; rewrite (g_ty' _ _ _ _ _ _ _ _ HC); reflexivity).
+    assert (Hd1 : forall j, gdata s1 j = if N.eqb j i then None else gdata s j)
+      by (intro j; rewrite (g_d' _ _ _ _ _ _ _ _ HC); reflexivity).
+    destruct (IH s1 s' HI1) as [HI' [Hty' Hd']]; [|exact H|].
+    { intros hc' i' Hin. rewrite Hty1. destruct (N.eqb i' i); [right; reflexivity|].
+      apply (Hwf hc' i'). right. exact Hin. }
+    split; [exact HI'|]. split.
+    + intro j. rewrite Hty'. simpl. rewrite Hty1.
+      destruct (N.eqb j i) eqn:Ej; simpl.
+      * destruct (smem j (map snd l)); reflexivity.
+      * reflexivity.
+    + intros j Hn. simpl in Hn. rewrite Hd' by tauto. rewrite Hd1.
+      destruct (N.eqb j i) eqn:Ej; [apply N.eqb_eq in Ej; subst j; exfalso; apply Hn; left; reflexivity | reflexivity].
+Qed.
+
+Theorem cmd_inv e s c s' :
+  wf_env e -> Inv e s -> wf_cmd s c -> cmd_step e s c = inl s' -> Inv e s'.
+Proof.
+  intros We HI Hwf H. destruct c as [i c d|hc i f v|l]; simpl in H.
+  - destruct (class_info e c) as [ci|]; [|discriminate].
+    destruct (data_refs_ok s i ci d); [|discriminate].
+    destruct (add_raw e s i c d) as [r|] eqn:E; simpl in H; [|discriminate]. inversion H; subst r.
+    apply (step_inv e s (OAdd true i c d) s' We HI I E).
+  - assert (Hs : forall r, lift (set_field e s i f v) = inl r -> Inv e r).
+    { intros r Hr. destruct (set_field e s i f v) as [r0|] eqn:E; simpl in Hr; [|discriminate].
+      inversion Hr; subst r0. apply (step_inv e s (OSet hc i f v) r We HI I E). }
+    destruct v as [[n|l|p]|].
+    + apply Hs. exact H.
+    + destruct (refs_ok s i l); [apply Hs; exact H | discriminate].
+    + apply Hs. exact H.
+    + destruct (unset_field e s i f) as [r0|] eqn:E; simpl in H; [|discriminate].
+      inversion H; subst r0. apply (step_inv e s (OUnset hc i f) s' We HI I E).
+  - destruct (forallb _ l); [|discriminate].
+    destruct (delete_all e s l) as [r|] eqn:E; simpl in H; [|discriminate]. inversion H; subst r.
+    apply (delete_all_spec e We l s s' HI Hwf E).
+Qed.
+
+Theorem cmd_refint e s c s' :
+  wf_env e -> Inv e s -> RefInt e s -> wf_cmd s c -> cmd_step e s c = inl s' -> RefInt e s'.
+Proof.
+  intros We HI HR Hwf H. destruct c as [i c d|hc i f v|l]; simpl in H.
+  - destruct (class_info e c) as [ci|] eqn:Eci; [|discriminate]. apply class_info_ok in Eci.
+    destruct (data_refs_ok s i ci d) eqn:Eg; [|discriminate].
+    destruct (add_raw e s i c d) as [r|] eqn:E; simpl in H; [|discriminate]. inversion H; subst r.
+    destruct (add_raw_chg _ _ _ _ _ _ We HI E) as [ci' HC].
+    pose proof (g_ci _ _ _ _ _ _ _ _ HC) as Hci'. rewrite Eci in Hci'. inversion Hci'; subst ci'.
+    apply (refint_chg_live e s s' i c ci None d HI HR HC).
+    intros f t Hf Ht. unfold data_refs_ok in Eg. rewrite forallb_forall in Eg.
+    apply (refs_ok_spec s i _ (Eg f Hf) t Ht).
+  - assert (Hs : forall r, lift (set_field e s i f v) = inl r ->
+                 (forall t, In t (match v with Some (VRefs l) => l | _ => [] end) -> t = i \/ gty s t <> None) ->
+                 RefInt e r).
+    { intros r Hr Hg. destruct (set_field e s i f v) as [r0|] eqn:E; simpl in Hr; [|discriminate].
+      inversion Hr; subst r0. destruct (set_field_chg _ _ _ _ _ _ We HI E) as [c [ci [d HC]]].
+      apply (refint_field e s r i c ci d f v HI HR HC).
+      intros t Ht. apply Hg. destruct v as [[n|l|p]|].
+      - rewrite frefs_dset_same_nonrefs in Ht by exact I. destruct Ht.
+      - rewrite frefs_dset_same_refs in Ht. exact Ht.
+      - rewrite frefs_dset_same_nonrefs in Ht by exact I. destruct Ht.
+      - rewrite frefs_dset_same_nonrefs in Ht by exact I. destruct Ht. }
+    destruct v as [[n|l|p]|].
+    + apply Hs; [exact H | intros t []].
+    + destruct (refs_ok s i l) eqn:Eg; [|discriminate].
+      apply Hs; [exact H | apply (refs_ok_spec s i l Eg)].
+    + apply Hs; [exact H | intros t []].
+    + destruct (unset_field e s i f) as [r0|] eqn:E; simpl in H; [|discriminate].
+      inversion H; subst r0.
+      destruct (unset_field_chg _ _ _ _ _ We HI E) as [->|[c [ci [d HC]]]]; [exact HR|].
+      apply (refint_field e s s' i c ci d f None HI HR HC).
+      intros t Ht. rewrite frefs_dset_same_nonrefs in Ht by exact I. destruct Ht.
+  - destruct (forallb _ l) eqn:Eg; [|discriminate].
+    destruct (delete_all e s l) as [r|] eqn:E; simpl in H; [|discriminate]. inversion H; subst r.
+    destruct (delete_all_spec e We l s s' HI Hwf E) as [HI' [Hty' Hd']].
+    intros r c0 ci0 d0 f t G1 G2 G4 Hf Ht.
+    (* r survived, so it is not a member of l and is the same object in s *)
+    assert (Hr : ~ In r (map snd l)).
+    { intro Hin. rewrite Hty' in G1. apply smem_In in Hin. rewrite Hin in G1. discriminate. }
+    assert (G1s : gty s r = Some c0).
+    { rewrite Hty' in G1. apply smem_nIn in Hr. rewrite Hr in G1. exact G1. }
+    assert (G4s : gdata s r = Some d0) by (rewrite <- (Hd' r Hr); exact G4).
+    pose proof (HR r c0 ci0 d0 f t G1s G2 G4s Hf Ht) as Hlive.
+    rewrite Hty'. destruct (smem t (map snd l)) eqn:Et; [|exact Hlive].
+    (* t is being dropped: then r, which refers to it, must be dropped too *)
+    exfalso. apply Hr. apply smem_In in Et. apply in_map_iff in Et. destruct Et as [[hct t'] [E' Hin]].
+    simpl in E'. subst t'. rewrite forallb_forall in Eg. specialize (Eg (hct, t) Hin). simpl in Eg.
+    rewrite forallb_forall in Eg. apply smem_In. apply Eg.
+    apply (rin_referrers s t (c0, f) r). apply (i_refs _ _ HI). exists ci0, d0. repeat split; assumption.
+Qed.
+
+Lemma RefInt_empty e : RefInt e empty.
+Proof. unfold RefInt, gty, empty. simpl. intros. discriminate. Qed.
+
+Fixpoint wf_cmd_hist (e : env) (s : schema) (cs : list cmd) : Prop :=
+  match cs with
+  | [] => True
+  | c :: cs' => wf_cmd s c /\ wf_cmd_hist e (cmd_apply e s c) cs'
+  end.
+
+Theorem cmd_run_refint e : wf_env e -> forall cs s,
+  Inv e s -> RefInt e s -> wf_cmd_hist e s cs -> Inv e (cmd_run e s cs) /\ RefInt e (cmd_run e s cs).
+Proof.
+  intros We cs. induction cs as [|c cs IH]; intros s HI HR Hwf; simpl.
+  - auto.
+  - destruct Hwf as [H1 H2]. apply IH; try exact H2; unfold cmd_apply;
+      destruct (cmd_step e s c) as [s'|] eqn:E; try assumption.
+    + eapply cmd_inv; eassumption.
+    + eapply cmd_refint; eassumption.
+Qed.
+
+Lemma p_cmd_reachable e : wf_env e -> forall cs, wf_cmd_hist e empty cs ->
+  Inv e (cmd_run e empty cs) /\ RefInt e (cmd_run e empty cs).
+Proof. intros We cs H. apply cmd_run_refint; [exact We | apply Inv_empty | apply RefInt_empty | exact H]. Qed.
